@@ -71,6 +71,13 @@ def run(chk: Check) -> None:
     subscription_idempotent(chk)
     inflight_step_released(chk)
     hooks_outlive_transitions(chk)
+    # an exception escaping on_entered after the terminal state was entered makes the machine treat the transition as failed: a second terminal notification,
+    # a state that disagrees with the future -- the failures of the state-change broadcast that are nobody's fault are tolerated (shared with C16)
+    from .c16 import tolerated_broadcast_failures
+    tolerated_broadcast_failures(chk, 'ESC-terminal-entry')
+    # cleanups (the un-subscriptions among them) are per process: run once, by the process that registered them (shared with C16)
+    from .common import no_shared_mutable_class_state
+    no_shared_mutable_class_state(chk, 'PAIR-cleanups-once')
 
 
 def subscription_idempotent(chk: Check) -> None:
